@@ -1,4 +1,53 @@
 """B-lists: range lists, location lists, indexed address / string-offset / list-offset tables (DESIGN.md 6 C08, C17, A.5).
+
+Functions under contract (real text of /repo/src/read/{rnglists,loclists,addr,str}.rs; owners C01+C08, table lookups also C17):
+
+  raw decoding (carrier 1)
+    RawRange::{parse, is_end, is_base_address}
+    RawRngListEntry::parse, RawLocListEntry::parse, parse_data        every DW_RLE_* / DW_LLE_* kind and the legacy pair
+        format, generated from the tables RLE / LLE below (DWARF 5 Table 7.30 / 7.10, sections 2.17.3 / 2.6.2 + the GNU v4
+        split-DWARF variants gimli documents): per kind the operand layout, the decoded fields, exact consumption, the
+        location description as a `window` of the input [C10:view]; end-of-list, unknown kind -> the specific error,
+        (0,0) end marker, all-ones(address_size) base-selection marker, invalid address size -> Err
+    RawRngListIter::{new,next}, RawLocListIter::{new,next}            iterator protocol (empty -> None, Err empties,
+        Some -> progress, None -> emptied) + "raw iteration exposes every encoded entry unchanged" (same per-kind clauses)
+  resolution (carrier 2)
+    Range::add_base_address
+    RngListIter::{new,get_address,next,next_raw,convert_raw}, LocListIter::{...}
+        convert_raw == rng_resolve / loc_resolve (ghost functions below, from DWARF 5 2.17.3 / 2.6.2): new running base,
+        reported range (offset pairs add the base with wrap at the address size, startx_length = A[i] + n, tombstone base
+        drops the pair), location data handed through; FOR ANY INPUT  Ok(Some(r)) ==> r.begin < r.end && r.begin <
+        ones(size)-1  [C08:nonempty-below-tombstone]; `next`: the same clause + iterator protocol + termination
+  indexed tables (carrier 3)
+    DebugAddr::get_address, DebugStrOffsets::get_str_offset, RangeLists::get_offset, LocationLists::get_offset
+        result == entry read at base + index * entry_size with MATHEMATICAL multiplication (`tab_at` in specs/lists.rs)
+    RangeLists::raw_ranges, LocationLists::{raw_locations, raw_locations_dwo}   section / format selection by version
+    AddrHeader::{parse,offset,length,encoding}, AddrHeaderIter::next, AddrEntryIter::next
+
+FINDING F-lists-1 (= DESIGN F4), reported on the pinned tree as 6 failed overflow obligations (exit 1):
+    `index.0.into_u64() * u64::from(size)` in the four lookups and `base.0 + x` in the two get_offset closures.
+    native/src/bin/f_lists_1.rs reproduces all of them (also from bytes only, through RngListIter/LocListIter::next);
+    native/f_lists_1_fix.patch is the minimal fix (checked_mul / checked_add -> Error::UnsupportedOffset); with it the
+    batch exits 0 (every postcondition above is then proved) and gimli's own tests still pass.
+
+Assumed (TRUSTED): only core's ledger (verif_unreachable, Result::and_then, reader_clone = "a cloned reader has the same
+view"; `section.clone()` is rewritten to reader_clone by R-CLONE, logged).  Logged rewrites: R-CLONE (10 sites); R-CTORFN
+(`.map(DebugStrOffset)` -> `.map(|x| DebugStrOffset(x))`: Verus has no constructors as function values); R-VIS
+(`pub(crate) trait ReaderAddress` -> `pub trait`, works around a Verus panic, see widen_reader_address).  Inserted
+closure postconditions (`|x| -> (o: T) ensures .. { .. }`) and `hide(..)` directives are insert-only text.
+Precondition (not from bytes): the resolving iterators require valid_address_size(encoding.address_size)
+[C08:valid-address-size] -- established by the unit header parser ([C01:address-size-validated]); a caller that builds an
+`Encoding` with another address size by hand makes `u64::min_tombstone` shift out of range (API misuse, canary-guarded).
+AddrHeaderIter::next requires offset + remaining input <= usize::MAX (true when started by DebugAddr::headers).
+
+Not decided here: carrier 4 (Dwarf::{ranges_offset_from_raw, attr_ranges_offset, attr_locations_offset, die_ranges},
+RangeIter, unit_ranges -> DESIGN F5 is NOT covered by an obligation of this batch); RangeLists::ranges /
+LocationLists::locations(_dwo) (one-line constructors over `DebugAddr::clone`); DebugAddr::headers, AddrHeader::entries;
+lists.rs parse_header / *Base::default_for_encoding_and_file; completeness "in-bounds operands ==> Ok" for address
+operands (core's read_address contract has no `Err <==> too short` clause); the functional relation of the resolving
+`next` to the whole list (it is the composition of raw `next` and `convert_raw`, both fully specified; `next` itself
+carries protocol, termination and the non-empty/tombstone clause); the standard gives DW_LLE_default_location no
+address range -- gimli's documented representation [0, u64::MAX) is what the spec function states.
 """
 from lib import *
 from batches import core
@@ -52,40 +101,6 @@ def operand_lets(kinds, enc):
             extra.append(f'window(b0, data.0.rv(), d{i} as nat, o{i} as nat)')
     s += f'let total = p{len(kinds)}; '
     return s, extra
-
-
-def entry_spec(loc):
-    """ghost predicate  <P>_entry(b0, enc, coded, e, b1): entry `e` is what the bytes at b0 encode, b1 = reader after it.
-    coded = DW_RLE_* / DW_LLE_* kind-byte encoding; !coded = legacy pair format (DWARF 2-4 section 2.17.3 / 2.6.2):
-    two address-size fields; (0,0) ends the list; begin == all-ones selects a new base address (the end field)"""
-    table, ename, P, gen, ety = ((LLE, 'RawLocListEntry', 'lle', '<R: Reader<Offset = usize>>', 'RawLocListEntry<R>') if loc else
-                                 (RLE, 'RawRngListEntry', 'rle', '<T: ReaderOffset>', 'RawRngListEntry<T>'))
-    arms = ''
-    for name, kind, ops, pat, cons in table:
-        lets, extra = operand_lets(ops, 'enc')
-        c = ' && '.join([f'({cons})'] + extra)
-        arms += f'            {pat} => {{ {lets} b0.at(0) == {kind:#04x} && {c} && adv(b0, b1, total as nat) }},\n'
-    arms += f'            {ename}::AddressOrOffsetPair {{ .. }} => false,\n'
-    if loc:
-        pair = (f'            {ename}::AddressOrOffsetPair {{ begin, end, data }} => b0.u(0, s) != ones(enc.address_size) && begin == b0.u(0, s) && end == b0.u(s, s) '
-                f'&& !(begin == 0 && end == 0) && window(b0, data.0.rv(), (2 * s + 2) as nat, b0.u(2 * s, 2)) && adv(b0, b1, (2 * s + 2 + b0.u(2 * s, 2)) as nat),\n')
-    else:
-        pair = (f'            {ename}::AddressOrOffsetPair {{ begin, end }} => b0.u(0, s) != ones(enc.address_size) && begin == b0.u(0, s) && end == b0.u(s, s) '
-                f'&& !(begin == 0 && end == 0) && adv(b0, b1, (2 * s) as nat),\n')
-    return f'''
-pub open spec fn {P}_entry{gen}(b0: RView, enc: Encoding, coded: bool, e: {ety}, b1: RView) -> bool {{
-    if coded {{
-        match e {{
-{arms}        }}
-    }} else {{
-        let s = enc.address_size as int;
-        valid_address_size(enc.address_size) && match e {{
-            {ename}::BaseAddress {{ addr }} => b0.u(0, s) == ones(enc.address_size) && addr == b0.u(s, s) && adv(b0, b1, (2 * s) as nat),
-{pair}            _ => false,
-        }}
-    }}
-}}
-'''
 
 
 def decode_clauses(loc, coded, enc, B0, B1, res='res'):
